@@ -80,11 +80,18 @@ MCInit ==
   \/ \E h \in SeqsUpTo({"T"}, 2), p \in SeqsUpTo(PayLine, MaxPayload), s \in SeqsUpTo(SigLine, 2) :
        \E n \in 0..(Len(h) + Len(p) + Len(s) + 4), extra \in Extras, lf \in BOOLEAN :
           (n = Len(h) + Len(p) + Len(s) + 4 \/ extra = <<>>) /\ InitWith(MkWrapped(h, p, s, n, extra, lf))
-  \* unsigned text: any first line other than the marker -> returned unchanged
-  \/ \E q \in SeqsUpTo(AllClass \ {"BM"}, 2), f \in AllClass \ {"BM"}, lf \in BOOLEAN :
-       InitWith([lines |-> <<f>> \o q, lf |-> lf, kind |-> "unsigned", exp |-> "Passthrough", expPayload |-> <<>>, expSig |-> <<>>])
-  \* every short line-class sequence (not pinned by the property: prediction compared as drift only)
+  \* unsigned text: ANY first line other than the marker -> returned unchanged, whatever follows (markers included)
   \/ \E q \in SeqsUpTo(AllClass, SeqLen), lf \in BOOLEAN :
+       q # <<>> /\ q[1] # "BM" /\
+       InitWith([lines |-> q, lf |-> lf, kind |-> "unsigned", exp |-> "Passthrough", expPayload |-> <<>>, expSig |-> <<>>])
+  \* ... in particular a complete clear-signed message behind one other line (an empty line, text, a look-alike)
+  \/ \E f \in AllClass \ {"BM"}, h \in SeqsUpTo({"T"}, 1), p \in SeqsUpTo(PayLine, 1), s \in SeqsUpTo(SigLine, 1), lf \in BOOLEAN :
+       LET w == MkWrapped(h, p, s, Len(h) + Len(p) + Len(s) + 4, <<>>, lf) IN
+       InitWith([lines |-> <<f>> \o w.lines, lf |-> lf, kind |-> "unsigned", exp |-> "Passthrough", expPayload |-> <<>>, expSig |-> <<>>])
+  \* every short line-class sequence that starts with the marker (not pinned by the property beyond the wrapped
+  \* messages above: prediction compared as drift only)
+  \/ \E q \in SeqsUpTo(AllClass, SeqLen), lf \in BOOLEAN :
+       (IF q = <<>> THEN TRUE ELSE q[1] = "BM") /\
        InitWith([lines |-> q, lf |-> lf, kind |-> "any", exp |-> "", expPayload |-> <<>>, expSig |-> <<>>])
 
 \* ---- what TLC proves: the machine gives the outcome the construction demands
